@@ -9,6 +9,7 @@ mod common;
 mod guard;
 mod pd;
 mod solar;
+mod surface;
 
 use common::Args;
 
@@ -28,6 +29,7 @@ fn main() {
         "c17" => c17::gen(&args),
         "c18" => c18::gen(&args),
         "c19" => c19::gen(&args),
+        "surface" => surface::gen(&args),
         "c01" => solar::gen_c01(&args),
         "c02" => solar::gen_c02(&args),
         "c03" => solar::gen_c03(&args),
